@@ -30,7 +30,8 @@ TRUSTED = ['modelled, not verified: CPython int(str) grammar incl. the Unicode 1
            'tools/facts_C02.py (fail-closed ast translator: content-type constants, raised statuses, call '
            'skeletons of the response path)',
            'oracle bit: whether grpc-status-details-bin bytes parse as google.rpc.Status (protobuf)']
-ASSUMPTIONS = ['no listener registered, no deadline, nobody calls cancel(); the transport is never paused',
+ASSUMPTIONS = ['listeners (RecvInitialMetadata / RecvMessage / RecvTrailingMetadata) only suspend: they do not edit '
+               'metadata, interrupt or raise; no deadline, nobody calls cancel(); the transport is never paused',
                'every DATA event carries one complete gRPC message',
                'header values reaching the client are ASCII str (h2 header_encoding=ascii); non-ASCII values '
                'are exercised on the helper functions directly',
@@ -812,6 +813,24 @@ def matrix_cases(rng, thorough):
             yield card, variant, prog, abs_bs, lis
 
 
+def listener_cut_cases(rng):
+    """always run, both tiers: a complete (or trailers-only) response arrives piecewise while the client is
+    blocked, then the cut is delivered while a listener is suspended -- every cardinality, both variants,
+    each single listener and all three, every cut kind"""
+    ok = ('S200', 'CtOk', 'GsAbsent', 'MdOk')
+    for card in CARDS:
+        for variant, prog in (('call', []), ('open', ['RI', 'RM', 'RT']), ('open', []), ('open', ['IT'])):
+            for lis in ('t', 'imt', 'm', 'i'):
+                for cut in (('RST',), ('GOAWAY',), ('LOST',)):
+                    for gs in ('GsErr', 'GsOk'):
+                        yield card, variant, prog, [('B', [('H', ok, False)]), ('B', [('D', False)]),
+                                                    ('B', [('T', (gs, 'MdOk'))]), ('L', [cut])], lis
+                    yield card, variant, prog, [('B', [('H', ('S200', 'CtOk', 'GsErr', 'MdOk'), False)]),
+                                                ('L', [cut])], lis
+                    yield card, variant, prog, [('B', [('H', ok, False), ('D', False), ('D', False)]),
+                                                ('L', [cut])], lis
+
+
 def run(ctx):
     res = Result()
     rng = ctx.rng
@@ -821,6 +840,11 @@ def run(ctx):
                 'four __call__ kinds, k<=1 for 8 open() bodies} x cut {none, RST, GOAWAY, connection_lost} x every '
                 'split point of the cut batch x {one batch, one batch per event} x trigger {blocked, before step '
                 'k}; each cell concretised by PRNG header strings (thorough: every cell; quick: PRNG sample); '
+                '(a2) always: 768 scripts in which the cut arrives while a RecvInitialMetadata / RecvMessage / '
+                'RecvTrailingMetadata listener is suspended (4 cardinalities x call and three open() bodies x 4 '
+                'listener sets x 3 cuts x 4 responses), also part of (a) as trigger L; two codec subtypes '
+                '(proto, json) with content-type candidates that are prefixes/suffixes/substrings/superstrings '
+                'of the accepted values; '
                 '(b) PRNG scripts with free header strings (:status 200..599/junk/missing, grpc-status -2..20 and '
                 'int() corner spellings, percent-encoded messages, details, malformed -bin) and free batch splits '
                 'and triggers; (c) the response-checking helpers and int() on arbitrary, also non-ASCII, strings. '
@@ -853,6 +877,7 @@ def run(ctx):
             batch = []
     if batch:
         check_runs(ctx, res, batch, 'matrix')
+    check_runs(ctx, res, [mk_case(rng, *c) for c in listener_cut_cases(rng)], 'listener-cut')
     # (b) free scripts
     check_runs(ctx, res, [rand_case(rng) for _ in range(ctx.n(2500, 25000))], 'prng')
     # (c) helpers and int()
